@@ -30,7 +30,7 @@ RULE = ('one cutoff per open interval between consecutive distinct same-species 
 LEVEL_TEXT = ('complete for the listed crystals/descriptions up to the 4th shell: every threshold region of both continuous '
               'parameters is visited, so within the bounds the statement is decided, not sampled')
 LEVEL_NOTE = ('Crystal.G of the crystal under test is taken as "the space group" (its correctness is C18; for skewed noreduce '
-              'cells it is known to be only a subgroup); lattice and basis are read from the constructed Crystal object')
+              'cells gengroup returns a set that is not even closed under composition: measured per case, tagged G-open); lattice and basis are read from the constructed Crystal object')
 ASSUMPTIONS = [
     'ties are excluded: a cutoff equal to a neighbour distance and an obstruction distance equal to a perpendicular '
     'distance are not in the alphabet; the default closestdistance=0 is a tie when a jump passes exactly through an '
@@ -41,6 +41,11 @@ ASSUMPTIONS = [
     'per-species requests are lists (the only container the code/docstring accept); the entry of the mobile species itself '
     'must be ignored and is set to 7.0',
     'Crystal.G is trusted to consist of symmetry operations (C18); site images are recomputed here from rot/trans only',
+    'violation keys end in ;ctx=<tags> when the INPUT (not the outcome) breaks a precondition of the algorithm, measured '
+    'independently: G-open = Crystal.G not closed under composition; jump-range = a jump below the cutoff needs a lattice '
+    'index beyond round(cutoff/|a_i|)+1; obst-range = an obstructing atom of the request lies beyond that index range. Tags '
+    'never change a verdict; an obstruction variant is not reported again when the same oracle already fails for the plain '
+    'request at the same cutoff',
 ]
 
 NSHELL = 4
